@@ -12,7 +12,12 @@
 // specification, MiniGo.go_rotl64).  A shift by a signed non-constant count (run-time panic when negative) makes the
 // function PARTIAL: its result is an option, None = the Go function panics; the test `0 <= count` is emitted in
 // front of the statement that holds the shift (under the left operand of an enclosing && / ||), and is accepted only
-// on straight-line paths (not inside a loop or a branch that falls through).  Anything else is refused with
+// on straight-line paths (not inside a loop or a branch that falls through); the same for / and % by a divisor that
+// is not a constant (test `divisor != 0`).  Results and locals of type error are booleans (true = an error was
+// returned: nil is false, fmt.Errorf(..) / errors.New(..) are true, the message is dropped); a struct whose fields are
+// all integers or booleans is the tuple of its fields (composite literals, field reads, zero value); a call of a
+// translated function with several results may be assigned to several variables or returned as it is.
+// Anything else is refused with
 // file:line and the construct; the function is then omitted from the output and the exit status is 1.
 //
 // Types and constant values come from go/types over the compiler's export data (go list -export), i.e. exactly
@@ -65,6 +70,9 @@ var table = []spec{
 	{Dir: "pkg/protocol", Name: "isValidLowEntropyRotation"},
 	{Dir: "pkg/protocol", Name: "lowBits"},
 	{Dir: "pkg/protocol", Name: "rotateLowEntropyMask"},
+	{Dir: "pkg/protocol", Name: "buildLowEntropyParams"},
+	{Dir: "pkg/protocol", Name: "lowEntropyEncodedPayloadLen"},
+	{Dir: "pkg/protocol", Name: "maxFragmentSize"},
 }
 
 type pkgInfo struct {
@@ -176,6 +184,9 @@ type tr struct {
 }
 
 func (t *tr) bad(n ast.Node, format string, a ...interface{}) error {
+	if n == nil {
+		return &unsupported{token.Position{}, fmt.Sprintf(format, a...)}
+	}
 	return &unsupported{t.p.fset.Position(n.Pos()), fmt.Sprintf(format, a...)}
 }
 
@@ -221,7 +232,47 @@ func ityOfName(name string, bad func() error) (string, error) {
 	return "", bad()
 }
 
+func isError(ty types.Type) bool {
+	return ty != nil && types.Identical(ty, types.Universe.Lookup("error").Type())
+}
+
+// structFields: the fields of a struct type made of integers and booleans only (nil otherwise).
+func (t *tr) structFields(ty types.Type) []*types.Var {
+	if ty == nil {
+		return nil
+	}
+	st, ok := ty.Underlying().(*types.Struct)
+	if !ok || st.NumFields() == 0 {
+		return nil
+	}
+	var fs []*types.Var
+	for i := 0; i < st.NumFields(); i++ {
+		if _, err := t.ity(st.Field(i).Type(), nil); err != nil {
+			return nil
+		}
+		fs = append(fs, st.Field(i))
+	}
+	return fs
+}
+
 func (t *tr) coqType(ty types.Type, n ast.Node) (string, error) {
+	if isError(ty) {
+		return "bool", nil
+	}
+	if fs := t.structFields(ty); fs != nil {
+		var cs []string
+		for _, f := range fs {
+			c, err := t.coqType(f.Type(), n)
+			if err != nil {
+				return "", err
+			}
+			cs = append(cs, c)
+		}
+		if len(cs) == 1 {
+			return cs[0], nil
+		}
+		return "(" + strings.Join(cs, " * ") + ")", nil
+	}
 	s, err := t.ity(ty, n)
 	if err != nil {
 		return "", err
@@ -281,9 +332,84 @@ func (t *tr) expr(e ast.Expr) (string, error) {
 			return "", t.bad(e, "constant of kind %v", tv.Value.Kind())
 		}
 	}
+	if ok && tv.IsNil() {
+		return "false", nil // nil of type error (any other nil is refused where it is used)
+	}
 	switch e := e.(type) {
 	case *ast.ParenExpr:
 		return t.expr(e.X)
+	case *ast.CompositeLit:
+		fs := t.structFields(tv.Type)
+		if fs == nil {
+			return "", t.bad(e, "composite literal of type %s", tv.Type)
+		}
+		vals := make([]string, len(fs))
+		for i, f := range fs {
+			z, err := t.zero(f.Type(), e)
+			if err != nil {
+				return "", err
+			}
+			vals[i] = z
+		}
+		for i, el := range e.Elts {
+			idx, ve := i, el
+			if kv, ok := el.(*ast.KeyValueExpr); ok {
+				id, ok := kv.Key.(*ast.Ident)
+				if !ok {
+					return "", t.bad(el, "composite literal key")
+				}
+				idx = -1
+				for j, f := range fs {
+					if f.Name() == id.Name {
+						idx = j
+					}
+				}
+				ve = kv.Value
+			}
+			if idx < 0 || idx >= len(fs) {
+				return "", t.bad(el, "composite literal element")
+			}
+			v, err := t.expr(ve)
+			if err != nil {
+				return "", err
+			}
+			vals[idx] = v
+		}
+		if len(vals) == 1 {
+			return vals[0], nil
+		}
+		return "(" + strings.Join(vals, ", ") + ")", nil
+	case *ast.SelectorExpr:
+		// field read of a struct-typed local (package-qualified constants were folded above)
+		xtv, ok := t.p.info.Types[e.X]
+		if !ok {
+			return "", t.bad(e, "selector %s", e.Sel.Name)
+		}
+		fs := t.structFields(xtv.Type)
+		if fs == nil {
+			return "", t.bad(e, "field %s of %s", e.Sel.Name, xtv.Type)
+		}
+		x, err := t.expr(e.X)
+		if err != nil {
+			return "", err
+		}
+		if len(fs) == 1 {
+			return x, nil
+		}
+		var pat []string
+		pick := ""
+		for _, f := range fs {
+			if f.Name() == e.Sel.Name {
+				pick = "fld_" + f.Name()
+				pat = append(pat, pick)
+			} else {
+				pat = append(pat, "_")
+			}
+		}
+		if pick == "" {
+			return "", t.bad(e, "field %s", e.Sel.Name)
+		}
+		return "(let '(" + strings.Join(pat, ", ") + ") := " + x + " in " + pick + ")", nil
 	case *ast.Ident:
 		o := t.p.info.Uses[e]
 		if o == nil {
@@ -345,6 +471,15 @@ func (t *tr) expr(e ast.Expr) (string, error) {
 		case token.LOR:
 			return "(orb " + x + " " + y + ")", nil
 		case token.EQL, token.NEQ, token.LSS, token.LEQ, token.GTR, token.GEQ:
+			if isError(t.p.info.Types[e.X].Type) || isError(t.p.info.Types[e.Y].Type) {
+				switch e.Op {
+				case token.EQL:
+					return "(Bool.eqb " + x + " " + y + ")", nil
+				case token.NEQ:
+					return "(negb (Bool.eqb " + x + " " + y + "))", nil
+				}
+				return "", t.bad(e, "ordering of errors")
+			}
 			oty, err := t.ity(t.p.info.Types[e.X].Type, e.X)
 			if err != nil {
 				// an untyped constant operand: take the other side
@@ -393,8 +528,14 @@ func (t *tr) expr(e ast.Expr) (string, error) {
 			return "(go_mul " + ty + " " + x + " " + y + ")", nil
 		case token.QUO, token.REM:
 			yv := t.p.info.Types[e.Y].Value
-			if yv == nil || constant.Sign(yv) == 0 {
-				return "", t.bad(e, "%s with a divisor that is not a non-zero constant", e.Op)
+			if yv != nil && constant.Sign(yv) == 0 {
+				return "", t.bad(e, "%s by the constant zero", e.Op)
+			}
+			if yv == nil {
+				if !t.partial {
+					return "", t.bad(e, "%s with a divisor that is not a non-zero constant", e.Op)
+				}
+				t.guards = append(t.guards, "(negb (Z.eqb "+y+" 0))")
 			}
 			if e.Op == token.QUO {
 				return "(go_quo " + ty + " " + x + " " + y + ")", nil
@@ -468,6 +609,9 @@ func (t *tr) expr(e ast.Expr) (string, error) {
 			return "", t.bad(e, "call of %s", id.Name)
 		}
 		key := fo.Pkg().Path() + "." + fo.Name()
+		if (key == "fmt.Errorf" || key == "errors.New") && isError(tv.Type) {
+			return "true", nil // an error value: only its presence is kept
+		}
 		if key == "math/bits.RotateLeft64" && len(e.Args) == 2 {
 			x, err := t.expr(e.Args[0])
 			if err != nil {
@@ -651,6 +795,20 @@ func (t *tr) ret(vals []string) string {
 }
 
 func (t *tr) zero(ty types.Type, n ast.Node) (string, error) {
+	if fs := t.structFields(ty); fs != nil && !isError(ty) {
+		var zs []string
+		for _, f := range fs {
+			z, err := t.zero(f.Type(), n)
+			if err != nil {
+				return "", err
+			}
+			zs = append(zs, z)
+		}
+		if len(zs) == 1 {
+			return zs[0], nil
+		}
+		return "(" + strings.Join(zs, ", ") + ")", nil
+	}
 	c, err := t.coqType(ty, n)
 	if err != nil {
 		return "", err
@@ -739,6 +897,28 @@ func (t *tr) simple(s ast.Stmt, ind string) (string, error) {
 		return ind + "let " + l + " := (" + op + " " + ty + " " + l + " 1) in\n", nil
 	case *ast.AssignStmt:
 		if s.Tok == token.ASSIGN || s.Tok == token.DEFINE {
+			if len(s.Lhs) > 1 && len(s.Rhs) == 1 {
+				call, ok := s.Rhs[0].(*ast.CallExpr)
+				if !ok {
+					return "", t.bad(s, "multi-value assignment from %T", s.Rhs[0])
+				}
+				if tup, ok := t.p.info.Types[call].Type.(*types.Tuple); !ok || tup.Len() != len(s.Lhs) {
+					return "", t.bad(s, "assignment of a multi-value call")
+				}
+				r, err := t.expr(call)
+				if err != nil {
+					return "", err
+				}
+				var ls []string
+				for _, l := range s.Lhs {
+					x, err := t.lhs(l)
+					if err != nil {
+						return "", err
+					}
+					ls = append(ls, x)
+				}
+				return ind + "let '(" + strings.Join(ls, ", ") + ") := " + r + " in\n", nil
+			}
 			if len(s.Lhs) != len(s.Rhs) {
 				return "", t.bad(s, "assignment of a multi-value call")
 			}
@@ -819,6 +999,21 @@ func (t *tr) seq(list []ast.Stmt, k string, ind string) (string, error) {
 	case *ast.ReturnStmt:
 		if k != "" {
 			return "", t.bad(s, "return inside a branch that also falls through, or inside a loop")
+		}
+		if len(s.Results) == 1 && t.results > 1 {
+			if call, ok := s.Results[0].(*ast.CallExpr); ok {
+				if tup, ok := t.p.info.Types[call].Type.(*types.Tuple); ok && tup.Len() == t.results {
+					v, err := t.expr(call)
+					if err != nil {
+						return "", err
+					}
+					g, err := t.takeGuards(k, s)
+					if err != nil {
+						return "", err
+					}
+					return guarded(g, ind, ind+t.ret([]string{v})+"\n"), nil
+				}
+			}
 		}
 		if len(s.Results) != t.results || t.results == 0 {
 			return "", t.bad(s, "return with %d values (bare returns are not translated)", len(s.Results))
@@ -1068,7 +1263,8 @@ func hasLoop(b *ast.BlockStmt) bool {
 	return found
 }
 
-// canPanic: the body holds a shift by a signed count that is not a constant (the only run-time panic the fragment admits).
+// canPanic: the body holds a shift by a signed count that is not a constant, or an integer division by a divisor that is
+// not a constant (the run-time panics the fragment admits).
 func (t *tr) canPanic(b *ast.BlockStmt) bool {
 	found := false
 	ast.Inspect(b, func(n ast.Node) bool {
@@ -1077,8 +1273,16 @@ func (t *tr) canPanic(b *ast.BlockStmt) bool {
 			if (n.Op == token.SHL || n.Op == token.SHR) && !t.isUnsignedOrConst(n.Y) {
 				found = true
 			}
+			if (n.Op == token.QUO || n.Op == token.REM) && t.p.info.Types[n.Y].Value == nil {
+				if _, err := t.ity(t.p.info.Types[n.X].Type, nil); err == nil { // integer division (floats are refused anyway)
+					found = true
+				}
+			}
 		case *ast.AssignStmt:
 			if (n.Tok == token.SHL_ASSIGN || n.Tok == token.SHR_ASSIGN) && len(n.Rhs) == 1 && !t.isUnsignedOrConst(n.Rhs[0]) {
+				found = true
+			}
+			if (n.Tok == token.QUO_ASSIGN || n.Tok == token.REM_ASSIGN) && len(n.Rhs) == 1 && t.p.info.Types[n.Rhs[0]].Value == nil {
 				found = true
 			}
 		}
